@@ -1,4 +1,5 @@
 import LibInj.Sqli.Check
+import LibInj.Sqli.Raw
 import LibInj.Xss.IsXSS
 /-! Line-protocol driver: one operation per input line, one canonical observation per output line.
 The Go harness prints the same canonical form from the real package; the two streams are diffed. -/
@@ -28,18 +29,11 @@ def showM {α} (f : α → String) : M α → String
 def fmtTok (t : Token) : String :=
   s!"{t.cat},{t.pos},{t.len},{tohex t.val},{t.strOpen},{t.strClose},{t.count}"
 
-def tokAll (s : State) : Nat → List String → M (List String)
-  | 0, _ => .error .fuel
-  | fuel + 1, acc => do
-    let before := s.pos
-    let (more, s) ← tokenize s
-    if more then
-      let t ← tvGet s s.cur
-      tokAll s fuel (s!"{fmtTok t},{before},{s.pos}" :: acc)
-    else return (s!"S {s.toks} {s.ddx} {s.hash} {s.pos}" :: acc).reverse
-
 def opTok (flags : Nat) (b : Bytes) : String :=
-  showM (String.intercalate ";") (tokAll (sqliInit b flags) (b.length + 3) [])
+  showM (fun (r : List RawTok × State) =>
+      String.intercalate ";" ((r.1.map fun t => s!"{fmtTok t.tok},{t.before},{t.after}") ++
+        [s!"S {r.2.toks} {r.2.ddx} {r.2.hash} {r.2.pos}"]))
+    (rawTokens b flags)
 
 def opFp (flags : Nat) (b : Bytes) : String :=
   showM id (do
